@@ -483,7 +483,12 @@ def _len_chains(f):
 
     def eq_int(t):
         if isinstance(t, ast.Compare) and len(t.ops) == 1 and isinstance(t.ops[0], ast.Eq) and isinstance(t.comparators[0], ast.Constant) and type(t.comparators[0].value) is int:
-            return mod.code(inline_temporaries(f.node, t.left, inline_calls=True)), t.comparators[0].value
+            left, k = inline_temporaries(f.node, t.left, inline_calls=True), t.comparators[0].value
+            # S - c == k  /  S + c == k   is   S == k + c  /  S == k - c
+            while isinstance(left, ast.BinOp) and isinstance(left.op, (ast.Add, ast.Sub)) and isinstance(left.right, ast.Constant) and type(left.right.value) is int:
+                k = k + left.right.value if isinstance(left.op, ast.Sub) else k - left.right.value
+                left = left.left
+            return mod.code(left), k
         return None
 
     def chain(block, i, arms, subj):
